@@ -49,8 +49,10 @@ def rule_clamp(chk, cls):
         sites = set(id(p_[i].node) for p_, ix in cl_paths for i in ix)
         chk.decide(len(sites) == 1 and all(len(ix) == 1 for p_, ix in cl_paths), 'clamp', 'single-site', node=cl_paths[0][0][cl_paths[0][1][0]].node, file=SOL, func='_dump_output_if_needed',
                    detail_bad='self.dt is assigned at %d sites / more than once on a path' % len(sites), detail_ok='one assignment, once per path')
-        TOO_BIG = ('numpy.any((self.output_at_times - self.t > 0) & (self.output_at_times - self.t < self.dt))',
-                   'numpy.any((self.output_at_times - self.t < self.dt) & (self.output_at_times - self.t > 0))')
+        MASKS = ('(self.output_at_times - self.t > 0) & (self.output_at_times - self.t < self.dt)', '(self.output_at_times - self.t < self.dt) & (self.output_at_times - self.t > 0)')
+        # "some requested time lies within the next step", however it is asked: any(mask), mask.any(), a non-empty numpy.where(mask)[0]
+        TOO_BIG = tuple(f % m_ for m_ in MASKS for f in ('numpy.any(%s)', '(%s).any()', 'len(numpy.where(%s)[0]) > 0', 'numpy.where(%s)[0].size > 0', 'len(numpy.nonzero(%s)[0]) > 0',
+                                                         'numpy.count_nonzero(%s) > 0', 'len(numpy.where(%s)[0]) != 0', 'len(numpy.where(%s)[0])'))
         bad = {'lands': None, 'guard': None, 'reach': None, 'saved': None}
         for p_, ix in cl_paths:
             e = p_[ix[0]]
@@ -77,6 +79,21 @@ def rule_clamp(chk, cls):
                    detail_bad='a path shortens the step without having found a requested time with 0 < tdiff < dt (tests on that path: %s)' % bad['guard'], detail_ok='(tdiff > 0) & (tdiff < dt)')
         chk.decide(bad['reach'] is None, 'clamp', 'only-when-a-time-is-within-reach', node=node_c, file=SOL, func='_dump_output_if_needed',
                    detail_bad='clamp conditions are %s' % bad['reach'], detail_ok='only with requested times, one of them within reach')
+        # a requested time the run is already at (just shy of it, within the tolerance) is not landed on again: the next requested time inside the step is taken instead -
+        # some clamping path lands on the second candidate under the facts "the first one is the present time" and "there is another", or the candidates are scanned in a loop
+        second = False
+        for p_, ix in cl_paths:
+            e = p_[ix[0]]
+            v_ = compact(PT.resolve(e.node.value, e.env))
+            facts = [(compact(t_), tr) for t_, tr in PT.path_facts(p_[:ix[0]])]
+            near = any(('abs(' in t_ and '<self._epsilon' in t_ and tr) or ('abs(' in t_ and '>self._epsilon' in t_ and not tr) or ('abs(' in t_ and '>=self._epsilon' in t_ and not tr) for t_, tr in facts)
+            more = any(('len(' in t_ and t_.endswith('>1') and tr) or ('len(' in t_ and t_.endswith('>=2') and tr) for t_, tr in facts)
+            if near and more and '[1]]' in v_:
+                second = True
+        loops_ = [l for l in ast.walk(dn) if isinstance(l, (ast.For, ast.While)) and any(isinstance(a_, ast.Assign) and U(a_.targets[0]) == 'self.dt' for a_ in ast.walk(l))]
+        chk.decide(second or bool(loops_), 'clamp', 'a-time-already-reached-is-skipped-for-the-next', node=node_c, file=SOL, func='_dump_output_if_needed',
+                   detail_bad='when the first requested time inside the next step is the one the run is at (t is a rounding error short of it) no path goes on to the next requested time: '
+                              'a second output time closer than dt is stepped over and its output never written', detail_ok='second candidate taken when the first is the present time')
         chk.decide(bad['saved'] is None, 'clamp', 'nominal-step-saved', node=node_c, file=SOL, func='_dump_output_if_needed',
                    detail_bad='the nominal step is not saved in _prev_dt before the step is shortened', detail_ok='self._prev_dt = dt first')
 
@@ -93,6 +110,36 @@ def main(chk):
     cls_raw = M.find_class(t, 'Solver')
     cls = M.inlined_class(cls_raw, keep=set(VOCAB) | set(n_ for n_ in M.methods(cls_raw) if not n_.startswith('_')))
     solve = M.find_func(cls, 'solve')
+    # a loop test that a maintainer moved into a helper returning one expression (`while self._has_steps_left():`) is that expression
+    for w_ in [w for w in ast.walk(solve) if isinstance(w, ast.While)]:
+        if isinstance(w_.test, ast.Call) and isinstance(w_.test.func, ast.Attribute) and U(w_.test.func.value) == 'self' and not w_.test.args and not w_.test.keywords:
+            h_ = M.methods(cls_raw).get(w_.test.func.attr)
+            body_ = M.docstring_stripped(h_.body) if h_ is not None else []
+            if len(body_) == 1 and isinstance(body_[0], ast.Return) and body_[0].value is not None:
+                w_.test = ast.copy_location(body_[0].value, w_.test)
+            elif h_ is not None and not any(isinstance(x, (ast.For, ast.While, ast.Try, ast.With)) for x in ast.walk(h_)):
+                # a predicate written with branches: the disjunction over its paths of (tests taken) and (value returned); paths returning False drop out
+                from verif_static import paths as PT2
+                alts, okp = [], True
+                for p_ in PT2.enumerate_paths(body_):
+                    r_ = p_[-1]
+                    if r_.kind != 'return' or r_.node.value is None:
+                        okp = False
+                        break
+                    rv = PT2.resolve(r_.node.value, r_.env)
+                    if isinstance(rv, ast.Constant) and rv.value is False:
+                        continue
+                    conj = []
+                    for e_ in p_:
+                        if e_.kind == 'cond':
+                            t_ = PT2.resolve(e_.node, e_.env)
+                            conj.append(t_ if e_.truth else ast.UnaryOp(op=ast.Not(), operand=t_))
+                    if not (isinstance(rv, ast.Constant) and rv.value is True):
+                        conj.append(rv)
+                    alts.append(conj[0] if len(conj) == 1 else ast.BoolOp(op=ast.And(), values=conj) if conj else ast.Constant(value=True))
+                if okp and alts:
+                    new_t = alts[0] if len(alts) == 1 else ast.BoolOp(op=ast.Or(), values=alts)
+                    w_.test = ast.fix_missing_locations(ast.copy_location(ast.parse(ast.unparse(new_t), mode='eval').body, w_.test))
     g = C.build_cfg(solve)
     loops = [n for n in g.nodes if n.kind == 'loop' and isinstance(n.ast, ast.While)]
     main_loop = [n for n in loops if 'self.tf' in U(n.ast.test)]
@@ -524,6 +571,8 @@ def main(chk):
     spec19.loader.exec_module(c19)
     c19.rule_provenance(chk, M.py(c19.INT))
     c19.rule_fallback(chk, with_clamp=False)
+    # the smallest smoothing length the criteria are scaled by is that of the arrays that hold particles (model run shared with C19)
+    c19.rule_hmin_model(chk, M.py(c19.INT))
     # the requested output times are kept as given: what is stored must not depend on the final time known when they are set (set_final_time may raise it later)
     cls_ = M.find_class(t, 'Solver')
     writers = []
